@@ -1,7 +1,7 @@
 (* C07 — @leftrec rules terminate and build the left-nested tree of the longest growth. *)
 From PegV Require Import Utf8 State Terminals Syntax Fields Literals Model FuelMono Leftrec Extracted.
 From PegV Require WellFormed LRTerm.
-From PegV Require Import Conform CleanFrame UsualShape UsualShapeN UsualShapeExamples.
+From PegV Require Import Conform CleanFrame UsualShape UsualShapeN Indirect UsualShapeExamples.
 
 Theorem C07_facts :
   further_gt Extracted.scfg = true /\ leftrec_closed Extracted.rcfg = true /\
@@ -701,3 +701,211 @@ Theorem C07_closed_formN_instance :
   end.
 Proof. exact pm_closed_form. Qed.
 Print Assumptions C07_closed_formN_instance.
+
+(* ---- recursion through a plain rule - the style of the documentation and of the repository's calculator
+   example:  @leftrec A = @:P | b...   P = l:*A x...   (Indirect.v over the generic growth loop of GrowLoop.v).
+   Provided nothing is skipped between the entry of A and the recursive field of P, that field evaluates to
+   the current best result of A's loop: the body of a turn is `indirect_body` - P's rest x... from the previous
+   result's end with l bound to the previous result, P's own value built from it and handed to A through `@:`;
+   when that fails, the other alternatives of A (C07_indirect_body, exact for every bound, hooks, tracer,
+   cache); what A's parse returns was produced by such turns, each strictly further, stopped because one more
+   turn did not get further (C07_indirect_parse).  Instance  X = @:A | @:N; A = l:*X '+' r:N : 1+2+3 nests to
+   the left; entered before a blank, " 1+2" gives 1 (the known finding, C07_indirect_refuted_before_whitespace). *)
+Theorem C07_indirect_body :
+  forall (ustate : Type) (scfg : state_cfg) (tcfg : term_cfg) (fcfg : fields_cfg) 
+    (rcfg : rule_cfg) (hk : hooks ustate) (g : grammar) (A P : rule) (l : name) 
+    (bx : bool) (x1 : expr) (xs : list expr) (b1 : expr) (balts : list expr),
+  r_def A = idef P b1 balts ->
+  r_def P = pdef A l bx x1 xs ->
+  find_grule g (r_name A) = Some (GRule A) ->
+  find_grule g (r_name P) = Some (GRule P) ->
+  fl_left_recursive (flags_of (r_directives A)) = true ->
+  fl_left_recursive (flags_of (r_directives P)) = false ->
+  fl_memoize (flags_of (r_directives P)) = false ->
+  forall rfA fdsA innerA1 rfP fdsP1 : list fdesc,
+  get_fields fcfg (gf_fuel g) g (idef P b1 balts) = GFOk rfA ->
+  get_fields fcfg (gf_fuel g) g (pdef A l bx x1 xs) = GFOk rfP ->
+  filt fcfg g (actx A rfA) (idef P b1 balts) = Some fdsA ->
+  own_fields fcfg g (ialt1 P) = Some innerA1 ->
+  filt fcfg g (actx P rfP) (palt A l bx x1 xs) = Some fdsP1 ->
+  forall (k : nat) (st : pstate) (gl : glob ustate) (c : cached),
+  Wi g A P rfA rfP st ->
+  cache_get (r_name A) (off st) (g_cache gl) = Some c ->
+  rule_body ustate scfg fcfg hk g (run ustate scfg tcfg fcfg rcfg hk g (8 + k)) A st gl =
+  indirect_body ustate scfg tcfg fcfg rcfg hk g A P l x1 xs b1 balts rfA fdsA innerA1 rfP fdsP1 k st c
+    gl.
+Proof. exact indirect_body_eq. Qed.
+Print Assumptions C07_indirect_body.
+
+Theorem C07_indirect_parse :
+  forall (ustate : Type) (scfg : state_cfg) (tcfg : term_cfg) (fcfg : fields_cfg) 
+    (rcfg : rule_cfg) (hk : hooks ustate) (g : grammar) (A P : rule) (l : name) 
+    (bx : bool) (x1 : expr) (xs : list expr) (b1 : expr) (balts : list expr),
+  r_def A = idef P b1 balts ->
+  r_def P = pdef A l bx x1 xs ->
+  find_grule g (r_name A) = Some (GRule A) ->
+  find_grule g (r_name P) = Some (GRule P) ->
+  fl_left_recursive (flags_of (r_directives A)) = true ->
+  fl_left_recursive (flags_of (r_directives P)) = false ->
+  fl_memoize (flags_of (r_directives P)) = false ->
+  forall rfA fdsA innerA1 rfP fdsP1 : list fdesc,
+  get_fields fcfg (gf_fuel g) g (idef P b1 balts) = GFOk rfA ->
+  get_fields fcfg (gf_fuel g) g (pdef A l bx x1 xs) = GFOk rfP ->
+  filt fcfg g (actx A rfA) (idef P b1 balts) = Some fdsA ->
+  own_fields fcfg g (ialt1 P) = Some innerA1 ->
+  filt fcfg g (actx P rfP) (palt A l bx x1 xs) = Some fdsP1 ->
+  forall st : pstate,
+  Wi g A P rfA rfP st ->
+  forall (F : nat) (gl : glob ustate) (r : mres value) (gl' : glob ustate),
+  cache_get (r_name A) (off st) (g_cache gl) = None ->
+  ev_rule (run ustate scfg tcfg fcfg rcfg hk g F) (r_name A) st gl = (r, gl') ->
+  let sentinel := CErr (report_error scfg st LeftRecursionSentinel) in
+  match r with
+  | MOk v s' =>
+      IProduced ustate scfg tcfg fcfg rcfg hk g A P l x1 xs b1 balts rfA fdsA innerA1 rfP fdsP1 st
+        sentinel v s'
+  | MErr e =>
+      leftrec_closed rcfg = true ->
+      exists (k : nat) (gl0 gl1 : glob ustate),
+        indirect_body ustate scfg tcfg fcfg rcfg hk g A P l x1 xs b1 balts rfA fdsA innerA1 rfP fdsP1 k
+          st sentinel gl0 = (MErr e, gl1)
+  | _ => True
+  end.
+Proof. exact indirect_parse. Qed.
+Print Assumptions C07_indirect_parse.
+
+Theorem C07_indirect_instance :
+  forall (k : nat) (st : pstate) (gl : glob unit) (c : cached),
+  Wi g_ind rX rAd rfX rfAd st ->
+  cache_get nX (off st) (g_cache gl) = Some c ->
+  rule_body unit scfg_doc fields_cfg_doc no_hooks g_ind
+    (run unit scfg_doc term_cfg_expected fields_cfg_doc rcfg_doc no_hooks g_ind (8 + k)) rX st gl =
+  indirect_body unit scfg_doc term_cfg_expected fields_cfg_doc rcfg_doc no_hooks g_ind rX rAd nl x_plus
+    [x_rnum] b_onum [] rfX fdsX innerX1 rfAd fdsAd1 k st c gl.
+Proof. exact ind_is_indirect. Qed.
+Print Assumptions C07_indirect_instance.
+
+Theorem C07_indirect_instance_left_nested :
+  exists st : pstate,
+    fst
+      (m_parse unit scfg_doc term_cfg_expected fields_cfg_doc rcfg_doc no_hooks g_ind 90 nX
+         [49%N; 43%N; 50%N; 43%N; 51%N] tt) = MOk (addv (addv (VEnum nN (VStr [49%N])) 50) 51) st /\
+    off st = 5.
+Proof. exact ind_left_nested. Qed.
+Print Assumptions C07_indirect_instance_left_nested.
+
+Theorem C07_indirect_refuted_before_whitespace :
+  exists st : pstate,
+    fst
+      (m_parse unit scfg_doc term_cfg_expected fields_cfg_doc rcfg_doc no_hooks g_ind 90 nX
+         [32%N; 49%N; 43%N; 50%N] tt) = MOk (VEnum nN (VStr [49%N])) st /\ off st = 2.
+Proof. exact ind_leading_blank_refuted. Qed.
+Print Assumptions C07_indirect_refuted_before_whitespace.
+
+(* ---- ... and its closed form (GrowLoop.greedy_closed_form instantiated): with P's rest and A's other
+   alternatives over a clean set, stateless hooks and the source's decision points, the parse of A fails iff
+   the base fails and otherwise returns the end of the unique chain  B X ... X  (X: P's rest from the previous
+   result's end with l bound to it, P's value handed to A through `@:`) with strictly increasing offsets at
+   which X fails or does not progress (C07_indirect_closed_form, C07_indirect_greedy_unique);
+   C07_indirect_closed_form_instance: the hypotheses are met by  X = @:A | @:N; A = l:*X '+' r:N. *)
+Theorem C07_indirect_closed_form :
+  forall (ustate : Type) (scfg : state_cfg) (tcfg : term_cfg) (fcfg : fields_cfg) 
+    (rcfg : rule_cfg) (hk : hooks ustate) (g : grammar) (A P : rule) (l : name) 
+    (bx : bool) (x1 : expr) (xs : list expr) (b1 : expr) (balts : list expr),
+  r_def A = idef P b1 balts ->
+  r_def P = pdef A l bx x1 xs ->
+  find_grule g (r_name A) = Some (GRule A) ->
+  find_grule g (r_name P) = Some (GRule P) ->
+  fl_left_recursive (flags_of (r_directives A)) = true ->
+  fl_left_recursive (flags_of (r_directives P)) = false ->
+  fl_memoize (flags_of (r_directives P)) = false ->
+  forall rfA fdsA innerA1 rfP fdsP1 : list fdesc,
+  get_fields fcfg (gf_fuel g) g (idef P b1 balts) = GFOk rfA ->
+  get_fields fcfg (gf_fuel g) g (pdef A l bx x1 xs) = GFOk rfP ->
+  filt fcfg g (actx A rfA) (idef P b1 balts) = Some fdsA ->
+  own_fields fcfg g (ialt1 P) = Some innerA1 ->
+  filt fcfg g (actx P rfP) (palt A l bx x1 xs) = Some fdsP1 ->
+  forall clean : name -> bool,
+  (forall n : name, clean n = true -> rule_clean g clean n) ->
+  (forall (n : name) (r : rule),
+   clean n = true -> find_rule g n = Some r -> eclean clean (r_def r) = true) ->
+  clean n_Whitespace = true ->
+  lclean clean (x1 :: xs) = true ->
+  lclean clean (b1 :: balts) = true ->
+  (forall u u' : ustate, u = u') ->
+  further_gt scfg = true ->
+  leftrec_closed rcfg = true ->
+  forall st : pstate,
+  Wi g A P rfA rfP st ->
+  forall (F : nat) (gl : glob ustate) (r : mres value) (gl' : glob ustate),
+  cache_get (r_name A) (off st) (g_cache gl) = None ->
+  ev_rule (run ustate scfg tcfg fcfg rcfg hk g F) (r_name A) st gl = (r, gl') ->
+  match r with
+  | MOk v s =>
+      exists (v0 : value) (s0 : pstate),
+        Bok ustate scfg tcfg fcfg rcfg hk g A b1 balts rfA fdsA st v0 s0 /\
+        StarI ustate scfg tcfg fcfg rcfg hk g A P l x1 xs rfA fdsA innerA1 rfP fdsP1 st v0 s0 v s /\
+        StopI ustate scfg tcfg fcfg rcfg hk g A P l x1 xs rfA fdsA innerA1 rfP fdsP1 st v s
+  | MErr _ => Bfail ustate scfg tcfg fcfg rcfg hk g A b1 balts rfA fdsA st
+  | _ => True
+  end.
+Proof. exact indirect_closed_form. Qed.
+Print Assumptions C07_indirect_closed_form.
+
+Theorem C07_indirect_greedy_unique :
+  forall (ustate : Type) (scfg : state_cfg) (tcfg : term_cfg) (fcfg : fields_cfg) 
+    (rcfg : rule_cfg) (hk : hooks ustate) (g : grammar) (A P : rule) (l : name) 
+    (bx : bool) (x1 : expr) (xs : list expr) (b1 : expr) (balts : list expr),
+  r_def A = idef P b1 balts ->
+  r_def P = pdef A l bx x1 xs ->
+  find_grule g (r_name A) = Some (GRule A) ->
+  find_grule g (r_name P) = Some (GRule P) ->
+  fl_left_recursive (flags_of (r_directives A)) = true ->
+  fl_left_recursive (flags_of (r_directives P)) = false ->
+  fl_memoize (flags_of (r_directives P)) = false ->
+  forall rfA fdsA innerA1 rfP fdsP1 : list fdesc,
+  get_fields fcfg (gf_fuel g) g (idef P b1 balts) = GFOk rfA ->
+  get_fields fcfg (gf_fuel g) g (pdef A l bx x1 xs) = GFOk rfP ->
+  filt fcfg g (actx A rfA) (idef P b1 balts) = Some fdsA ->
+  own_fields fcfg g (ialt1 P) = Some innerA1 ->
+  filt fcfg g (actx P rfP) (palt A l bx x1 xs) = Some fdsP1 ->
+  forall clean : name -> bool,
+  (forall n : name, clean n = true -> rule_clean g clean n) ->
+  (forall (n : name) (r : rule),
+   clean n = true -> find_rule g n = Some r -> eclean clean (r_def r) = true) ->
+  clean n_Whitespace = true ->
+  lclean clean (x1 :: xs) = true ->
+  lclean clean (b1 :: balts) = true ->
+  (forall u u' : ustate, u = u') ->
+  forall (st : pstate) (v : value) (s : pstate) (va : value) (sa : pstate) (vb : value) (sb : pstate),
+  StarI ustate scfg tcfg fcfg rcfg hk g A P l x1 xs rfA fdsA innerA1 rfP fdsP1 st v s va sa ->
+  StopI ustate scfg tcfg fcfg rcfg hk g A P l x1 xs rfA fdsA innerA1 rfP fdsP1 st va sa ->
+  StarI ustate scfg tcfg fcfg rcfg hk g A P l x1 xs rfA fdsA innerA1 rfP fdsP1 st v s vb sb ->
+  StopI ustate scfg tcfg fcfg rcfg hk g A P l x1 xs rfA fdsA innerA1 rfP fdsP1 st vb sb ->
+  va = vb /\ Rst sa sb.
+Proof. exact indirect_greedy_unique. Qed.
+Print Assumptions C07_indirect_greedy_unique.
+
+Theorem C07_indirect_closed_form_instance :
+  forall st : pstate,
+  Wi g_ind rX rAd rfX rfAd st ->
+  forall (F : nat) (gl : glob unit) (r : mres value) (gl' : glob unit),
+  cache_get nX (off st) (g_cache gl) = None ->
+  ev_rule (run unit scfg_doc term_cfg_expected fields_cfg_doc rcfg_doc no_hooks g_ind F) nX st gl =
+  (r, gl') ->
+  match r with
+  | MOk v s =>
+      exists (v0 : value) (s0 : pstate),
+        Bok unit scfg_doc term_cfg_expected fields_cfg_doc rcfg_doc no_hooks g_ind rX b_onum [] rfX fdsX
+          st v0 s0 /\
+        StarI unit scfg_doc term_cfg_expected fields_cfg_doc rcfg_doc no_hooks g_ind rX rAd nl x_plus
+          [x_rnum] rfX fdsX innerX1 rfAd fdsAd1 st v0 s0 v s /\
+        StopI unit scfg_doc term_cfg_expected fields_cfg_doc rcfg_doc no_hooks g_ind rX rAd nl x_plus
+          [x_rnum] rfX fdsX innerX1 rfAd fdsAd1 st v s
+  | MErr _ =>
+      Bfail unit scfg_doc term_cfg_expected fields_cfg_doc rcfg_doc no_hooks g_ind rX b_onum [] rfX fdsX
+        st
+  | _ => True
+  end.
+Proof. exact ind_closed_form. Qed.
+Print Assumptions C07_indirect_closed_form_instance.
